@@ -237,6 +237,21 @@ def catalogue():
                                 call("S2", binds={"x": ref("S1", "y")}),
                                 call("C1", binds={"f": ref("P", "ms", "f"), "w": ref("S2", "y")})],
                                {"a": ref("C1", "r"), "fs": ref("P", "ms", "f")})], "TOP", {"x": 1}))
+    # 17c. a top-level output written as a typed-map literal of files, after another file output;
+    #      a consumer handed a struct literal with a file member followed by such a map
+    FM = struct("FM", "file f, map<file> m")
+    P.append(program("vf_map_literal", [FM],
+                     [P_files("P"), P_files("Q"), SLOW("S1"), SLOW("S2"),
+                      stage("C1", "FM f, int w", "string r", {"r": INST})],
+                     [pipeline("TOP", "int x", "file a, map<file> m, string r",
+                               [call("P", binds={"x": self_("x")}, vol=True),
+                                call("Q", binds={"x": self_("x")}, vol=True),
+                                call("S1", binds={"x": self_("x")}),
+                                call("S2", binds={"x": ref("S1", "y")}),
+                                call("C1", binds={"f": objx(f=ref("P", "f"), m=objx(x=ref("P", "g"), y=ref("Q", "f"))),
+                                                  "w": ref("S2", "y")})],
+                               {"a": ref("Q", "g"), "m": objx(x=ref("P", "g"), y=ref("Q", "f")), "r": ref("C1", "r")})],
+                     "TOP", {"x": 1}, filetypes=ft))
     # 18. the whole result of a stage (a struct of its outputs, files among them) bound to a
     #     consumer's struct parameter, to a top-level output and to a pipeline retain
     OUTS = struct("OUTS", "file f, txt g, int n")
